@@ -255,7 +255,7 @@ def _cell(rec, sim, case, pi, pt, mb, au, tr, cookie_expect, out, okind,
         rest = pkts[1:] if okind != 'websocket' else [
             decode_packet(f['frame']) for f in h.ws.frames[1:]]
         if (4, 'welcome') not in rest:
-            V('greeting-lost', 'the message sent by the connect handler does '
+            V(rec, 'greeting-lost', 'the message sent by the connect handler does '
               'not follow the OPEN packet: %r' % (rest[:3],), case)
     if o.get('sid') != hsid:
         V(rec, 'open-sid', 'OPEN sid %r != connect handler sid %r' % (
@@ -410,6 +410,84 @@ def run_overlap(rec, spec):
         sim.teardown()
 
 
+def run_open_sequence(rec, spec):
+    """Several opens on ONE server over a mix of transports (polling, JSONP,
+    WebSocket): every OPEN packet is judged on its own - its sid is the one
+    its connect handler got, its timing / maxPayload are the configured ones
+    and its upgrades list fits the transport of THAT request (none on a
+    WebSocket connection; 'websocket' on polling only if the probe handshake
+    then completes)."""
+    from vf.simbase import decode_payload, decode_packet
+    srv, kinds, au = spec['srv'], spec['kinds'], spec['au']
+    case = {'openseq': dict(spec)}
+    rec.evaluations += 1
+    rec.count('open_sequences')
+    rec.key('openseq/%s/%s/%s' % (srv, au, ','.join(kinds)))
+    pi, pt, mb = 7, 3, 5000
+    sim = scen.make_sim(srv, server_kwargs={
+        'ping_interval': pi, 'ping_timeout': pt, 'max_http_buffer_size': mb,
+        'allow_upgrades': au})
+
+    def Vv(key, msg):
+        rec.viol(key, msg + ' | OPEN SEQUENCE server=%s allow_upgrades=%r '
+                 'opens=%r' % (srv, au, kinds), case)
+    try:
+        for k, kind in enumerate(kinds):
+            n0 = len(sim.events)
+            if kind == 'websocket':
+                h = sim.open_ws()
+            else:
+                h = sim.open_polling({'j': '5'} if kind == 'jsonp' else None)
+            t = h.open_ticket
+            rec.count('open_reference')
+            con = [e['sid'] for e in sim.events[n0:] if e['ev'] == 'connect']
+            if len(con) != 1:
+                Vv('connect-count', 'open #%d (%s): connect handler ran %d '
+                   'times' % (k + 1, kind, len(con)))
+                return
+            try:
+                if kind == 'websocket':
+                    o = decode_packet(h.ws.frames[0]['frame'])
+                elif kind == 'jsonp':
+                    o = decode_payload(jsonp.parse(t.text())[1])[0]
+                else:
+                    o = decode_payload(t.text())[0]
+                assert o[0] == 0 and isinstance(o[1], dict)
+                o = o[1]
+            except Exception as e:
+                Vv('open-malformed', 'open #%d (%s) answered status=%r body=%r'
+                   ': %r' % (k + 1, kind, t.status, (t.body or b'')[:80], e))
+                return
+            if o.get('sid') != con[0]:
+                Vv('open-sid', 'open #%d (%s): OPEN sid %r != connect handler '
+                   'sid %r' % (k + 1, kind, o.get('sid'), con[0]))
+            if (o.get('pingInterval'), o.get('pingTimeout'),
+                    o.get('maxPayload')) != (pi * 1000, pt * 1000, mb):
+                Vv('open-fields', 'open #%d (%s): OPEN packet %r, configured '
+                   'interval %r timeout %r max %r' % (k + 1, kind, o, pi, pt,
+                                                      mb))
+            ups = o.get('upgrades')
+            if kind == 'websocket':
+                if ups != []:
+                    Vv('upgrades-on-websocket', 'open #%d is a WebSocket '
+                       'connection and advertises upgrades %r' % (k + 1, ups))
+            elif ups not in ([], ['websocket']):
+                Vv('open-upgrades-form', 'open #%d: upgrades %r' % (k + 1, ups))
+            elif ups and not au:
+                Vv('advertised-not-accepted', 'open #%d (%s) advertises '
+                   'websocket with allow_upgrades=False' % (k + 1, kind))
+            elif ups and k % 2 == 0:
+                rec.count('upgrade_probe')
+                h.sid = con[0]
+                ws, ok = sim.do_upgrade(h)
+                if not ok:
+                    Vv('advertised-not-accepted', 'open #%d (%s) advertises '
+                       'websocket but the probe handshake did not complete' %
+                       (k + 1, kind))
+    finally:
+        sim.teardown()
+
+
 def run_cookie_sequence(rec, spec):
     """Several handshakes on ONE server whose cookie has computed (callable)
     attributes: every cookie carries the sid of its own OPEN packet and the
@@ -497,7 +575,19 @@ def plan(tier, seed):
         for outs in ([None, None], [None, None, None], [None, False],
                      [False, None], ['no', None, True], [None, 'raise']):
             over.append({'srv': srv, 'n': len(outs), 'outcomes': outs})
-    shards.append({'cells': [], 'overlaps': over,
+    seqs = []
+    kinds = ['polling', 'websocket', 'jsonp']
+    for srv in SRV:
+        for au in (True, False):
+            for a in kinds:
+                for b in kinds:
+                    if a != b:
+                        seqs.append({'srv': srv, 'au': au,
+                                     'kinds': [a, b, a, b]})
+            for _ in range(20 if tier == 'thorough' else 3):
+                seqs.append({'srv': srv, 'au': au, 'kinds': [
+                    rng.choice(kinds) for _ in range(rng.randint(3, 6))]})
+    shards.append({'cells': [], 'overlaps': over, 'openseqs': seqs,
                    'cookieseqs': [{'srv': x} for x in SRV]})
     return shards
 
@@ -508,6 +598,8 @@ def run_shard(spec):
         scen.run_cases(rec, [o], run_overlap)
     for o in spec.get('cookieseqs', []):
         scen.run_cases(rec, [o], run_cookie_sequence)
+    for o in spec.get('openseqs', []):
+        scen.run_cases(rec, [o], run_open_sequence)
     scen.run_cases(rec, [tuple(c) for c in spec['cells']], run_cell)
     if len(spec['cells']) > 5000:
         rec.extra['exhaustive'] = True
@@ -518,6 +610,9 @@ def replay(case):
     rec = Rec()
     if 'overlap' in case:
         run_overlap(rec, case['overlap'])
+        return rec.violations
+    if 'openseq' in case:
+        run_open_sequence(rec, case['openseq'])
         return rec.violations
     if 'cookieseq' in case:
         run_cookie_sequence(rec, case['cookieseq'])
